@@ -98,6 +98,20 @@ fn wide_histories(ctx: &Ctx, thorough: bool) {
     });
 }
 
+
+/// indexed sprite whose palette runs to index 299, entry k+256 different from entry k, pixels 0..43
+pub fn long_palette_sprite() -> File {
+    let fmt = Fmt::Indexed(0);
+    let mut f = gen::file(11, 4, &fmt, &[10]);
+    f.frames[0].push(new_palette(0, (0..300u32).map(|i| pal_entry([(i * 7) as u8, (i / 2) as u8 ^ 0x5a, (i >> 8) as u8 * 200 + 9, 255], None)).collect()));
+    f.frames[0].push(Body::Tileset(tileset(1, 3, 2, 2, (0..12u8).map(|i| i + 20).collect(), "ts")));
+    f.frames[0].push(Body::Layer(Layer::image("l")));
+    f.frames[0].push(Body::Layer(Layer::tilemap("m", 1)));
+    f.frames[0].push(raw_cel(0, 0, 0, 255, 11, 4, (0..44u8).collect()));
+    f.frames[0].push(tm_cel(1, 0, 0, 255, 2, 1, vec![1, 2]));
+    f
+}
+
 fn sendsync(ctx: &Ctx) {
     if !ctx.wants_family("sendsync") {
         return;
@@ -221,6 +235,9 @@ fn histories(ctx: &Ctx, thorough: bool) {
         files.push(("d1".into(), gen::d1(&Fmt::Rgba).encode()));
         files.push(("d1i".into(), gen::d1(&Fmt::Indexed(4)).encode()));
         files.push(("subject".into(), bytes.clone()));
+        for k in 0..4 {
+            files.push((format!("long-palette#{}", k), long_palette_sprite().encode()));
+        }
         let dims: Vec<usize> = (0..2).flat_map(|_| crate::props::c02::LAYER_DIMS.iter().copied()).collect();
         for v in ball_vec(&dims, 2) {
             files.push((format!("stack{:?}", v), crate::props::c02::stack_sprite(&v).encode()));
@@ -272,6 +289,7 @@ fn cross_load(ctx: &Ctx, thorough: bool) {
     files.push(("subject".into(), subject().encode()));
     files.push(("wide".into(), gen::wide(2, 300, 2).encode()));
     files.push(("d1g".into(), gen::d1(&Fmt::Gray).encode()));
+    files.push(("long-palette".into(), long_palette_sprite().encode()));
     // files that differ from another one in content only - same ids, counts, sizes, formats (a cache keyed
     // too coarsely confuses them)
     {
